@@ -879,7 +879,12 @@ class Job:
                     )
                 else:
                     raise error
-            self.__dict__.update(dst.__dict__)
+            # All shallow copies of this job (they share the state point object)
+            # follow the move, just as they follow a change of the job id.
+            for job in self.statepoint._jobs:
+                job._project = project
+                job._initialize_lazy_properties()
+            self.statepoint.filename = self._statepoint_filename
 
             # Update the destination project's state point cache
             project._register(self.id, statepoint)
